@@ -69,7 +69,17 @@ CLAIMED["C11"] = dict(
          "(3) the same workloads run with 16-byte aligned plain malloc (no-SSE2 variant) and 64-byte aligned blocks. The input-universal clause (no out-of-bounds/UB for every valid input) is only sampled by these workloads under ASan+UBSan.",
     note="Sanitizers are trusted to report what they can see; UB they cannot see and shapes the generators never reach are outside. Leaks of libpng/zlib are outside the ledger.")
 
-NOT_BUILT = {p: "not claimed at this commit: the simulation engine for this property is still under construction (see DESIGN.md section 11)" for p in ["C12", "C15", "C16"]}
+CLAIMED["C16"] = dict(
+    engine="omp", level="exploration", design_ref="DESIGN.md section 3, C16",
+    technique="deterministic simulation: the real -fopenmp build of the library runs on a simulated OpenMP runtime (own GOMP_*/omp_* entry points) with a seeded scheduler over cooperative tasks preempting between individual memory accesses, and a vector-clock happens-before access monitor fed by the compiler's -fsanitize=thread callbacks",
+    text="Workloads: mzd_(add)mul_mp (C given and NULL), mzd_(add)mul, squaring, M4RM products, M4RI elimination/top-reduction/inversion, PLE/PLUQ, solve, kernel, with shapes around 128j +- {0,1,63,64,65}, >512-row operands for the static-chunk loops, "
+         "cutoffs 64/128/192/0. Per run: sequential reference (same entry point of the sequential build; for the _mp front ends the same code with the runtime disabled AND the sequential mzd_(add)mul), "
+         "a team of n in 1..16 without preemption, and one seeded schedule (random-walk or PCT-style preemption; team size per region, nested teams and who grabs which section are scheduler choices). "
+         "Oracles: bit-identical outcome, no conflicting unordered accesses (HB from fork/join and critical sections only), every region joins within 20x the unpreempted event count, allocations balanced. "
+         "Control on every invocation: runtime with critical sections disabled must be flagged.",
+    note="The simulated runtime is conforming but is not libgomp; one task runs at a time (interleavings at instrumented-access granularity, no weak-memory effects). Sampling over shapes and schedules.")
+
+NOT_BUILT = {p: "not claimed at this commit: the simulation engine for this property is still under construction (see DESIGN.md section 11)" for p in ["C12", "C15"]}
 
 
 def main():
@@ -97,6 +107,7 @@ def main():
             dict(name="oom", path="sim/eng/oom.c", serves_properties=["C20"], kind_free_text="allocation-failure enumeration in forked children over the simulated heap"),
             dict(name="alloc", path="sim/eng/alloc.c", serves_properties=["C14"], kind_free_text="allocation histories against a reference model over the simulated (recycling, dirtying) heap"),
             dict(name="hist", path="sim/eng/hist.c", serves_properties=["C10", "C11"], kind_free_text="same call in several simulated worlds (history, heap content, destination junk); allocator ledger; forked ill-dimensioned calls"),
+            dict(name="omp", path="sim/eng/omp.c", serves_properties=["C16"], kind_free_text="real OpenMP build on the simulated runtime/scheduler/monitor of sim/core/sched.c"),
             dict(name="fs", path="sim/eng/fs.c", serves_properties=["C18"], kind_free_text="simulated file system and clock under the real PNG/JCF readers and writers; fault enumeration in forked children"),
         ],
         checks=checks,
